@@ -113,7 +113,10 @@ Definition check_lcase (c : lcase) : bool :=
   out_eqb o (o_out (l_obs c))
   && zlist_eqb (data_of st' "X") (o_after (l_obs c))
   && zlist_eqb (data_of st' "Y") (l_other c)
-  && Bool.eqb (id_of st' "X" =? 1) (o_same (l_obs c))
+  && (match l_op c with
+      | OpSetWhole _ => true           (* whole-series assignment: in place or a new array is not constrained by the property *)
+      | _ => Bool.eqb (id_of st' "X" =? 1) (o_same (l_obs c))
+      end)
   && pd_model_ok c
   && outs_eqb (map (fun l => get_item (tbl_get_loc (l_tbl c)) st' "X" (KLabel l)) (span_labels (l_span c)))
               (o_bylabel (l_obs c)).
